@@ -65,7 +65,16 @@ def enum_units(tier, seed):
         cases.append({"rom": rom, "files": {}, "defines": {"d_a": 5}, "define_forms": ["d"], "sub": True,
                       "ir": [{"k": "org", "a": org}, {"k": "label", "n": "lb_1"}, {"k": "data", "d": "dl", "es": [["id", "lb_1"], ["id", "d_a"]]},
                              {"k": "org", "a": org + 0x20000}, {"k": "ins", "m": "lda", "shape": ["#", None, None], "sfx": "w", "e": ["bin", "+", ["id", "d_a"], L(1)]}]})
-    return {"units": [{"cases": cases}], "exhaustive": False}
+    # a source file of more than 64 KiB / 128 KiB (3000 and 6000 statements, labels spread over it, a second block at the end)
+    for rom, org, n in (("low", 0x018000, 3000), ("high", 0xC18000, 6000)):
+        ir = [{"k": "org", "a": org}]
+        for i in range(n):
+            if i % 500 == 0:
+                ir.append({"k": "label", "n": f"lb_big_{i}"})
+            ir.append({"k": "data", "d": "dl", "es": [L(0x100000 + i), ["id", f"lb_big_{(i // 500) * 500}"]]})
+        ir += [{"k": "org", "a": org + 0x100000}, {"k": "label", "n": "lb_tail"}, {"k": "data", "d": "dl", "es": [["id", "lb_tail"], ["id", "lb_big_0"]]}]
+        cases.append({"rom": rom, "files": {}, "defines": {}, "define_forms": [], "sub": rom == "low", "ir": ir})
+    return {"units": [{"cases": [c]} for c in cases], "exhaustive": False}
 
 
 def unit_cases(unit):
